@@ -20,7 +20,7 @@ func TestC06(t *testing.T) {
 	caseNo := 0
 	rapid.Check(t, func(t *rapid.T) {
 		caseNo++
-		sch := genSchema(t, SchemaCfg{Key: 1, Late: true, Merges: true, MinCols: 1, MaxCols: 5})
+		sch := genSchema(t, SchemaCfg{Key: 1, Late: true, Merges: true, EnsureLenMerge: true, MinCols: 1, MaxCols: 5})
 		ch := make(commit.Channel, 64)
 		// serialized log: in memory, and every 4th case through a real file
 		var mem bytes.Buffer
@@ -86,11 +86,13 @@ func TestC06(t *testing.T) {
 				}
 				syncs++
 				mc.logf("compare primary and replica")
+				mc.CheckIndexes(t, mc.C, "primary (intermediate point)", nil)
 				mc.CheckDerived(t, replica, "replica fed through commit.Channel (intermediate point)", syncs%2 == 0)
 			},
 		})
 		sync(t)
 		mc.CheckFull(t, false)
+		mc.CheckIndexes(t, mc.C, "primary at the end", nil)
 		mc.CheckDerived(t, replica, "replica fed through commit.Channel", false)
 
 		// second replica: everything through the serialized log, read back at the end
